@@ -70,6 +70,19 @@ func init() {
 				r.Bad("switch", fi.Decl.Pos(), "node-kind type switch not found")
 				return
 			}
+			var nodeIface *types.Interface
+			if ap := c.W.Types.Imports(); ap != nil {
+				for _, im := range ap {
+					if im.Path() == "go/ast" {
+						if o := im.Scope().Lookup("Node"); o != nil {
+							nodeIface, _ = o.Type().Underlying().(*types.Interface)
+						}
+					}
+				}
+			}
+			if nodeIface == nil {
+				r.Bad("ast.Node", fi.Decl.Pos(), "go/ast.Node not found among the package's imports")
+			}
 			semanticPos := map[string]bool{"CallExpr.Ellipsis": true, "TypeSpec.Assign": true, "GenDecl.Lparen": true, "GenDecl.Rparen": true}
 			exceptions := map[string]string{
 				"CompositeLit.Incomplete": "only set by the parser for syntactically broken input, which never type-checks",
@@ -161,6 +174,43 @@ func init() {
 						return true
 					})
 					r.Check(from, "copyAST/"+key, cc.Pos(), "%s is copied from the original's %s", key, f.Name())
+					// a child that is itself a node is taken from the copy map (deep copy): sharing
+					// a subtree with the loaded syntax lets the later in-place rewrite edit the original
+					et := f.Type()
+					if sl, ok := et.(*types.Slice); ok {
+						et = sl.Elem()
+					}
+					if from && nodeIface != nil && types.Implements(et, nodeIface) {
+						deep := false
+						var path []ast.Node
+						ast.Inspect(v, func(nd ast.Node) bool {
+							if nd == nil {
+								path = path[:len(path)-1]
+								return true
+							}
+							path = append(path, nd)
+							if sel, ok := nd.(*ast.SelectorExpr); ok && sel.Sel.Name == f.Name() {
+								if id, ok := ast.Unparen(sel.X).(*ast.Ident); ok && fi.Info.ObjectOf(id) == nodeVar {
+									for _, anc := range path {
+										switch a := anc.(type) {
+										case *ast.CallExpr:
+											for _, arg := range a.Args {
+												if isCopyMap(fi.Info.TypeOf(arg)) {
+													deep = true
+												}
+											}
+										case *ast.IndexExpr:
+											if isCopyMap(fi.Info.TypeOf(a.X)) {
+												deep = true
+											}
+										}
+									}
+								}
+							}
+							return true
+						})
+						r.Check(deep, "copyAST/"+key+"/deep", cc.Pos(), "child node(s) %s are looked up in the copy map, not shared with the original tree", key)
+					}
 				}
 			}
 			r.Floor("node fields checked", checked, 120)
@@ -424,4 +474,8 @@ func copierFn(c *Ctx) *FuncInfo {
 		}
 	}
 	return c.Fn(c.W, "copyAST")
+}
+
+func isCopyMap(t types.Type) bool {
+	return t != nil && types.TypeString(t, nil) == "map[go/ast.Node]go/ast.Node"
 }
